@@ -103,6 +103,31 @@ def directed_family(quick):
                                     if r is not None:
                                         out.append(r)
     out += cup_over_cap_family()
+    out += equal_caps_family()
+    return out
+
+
+def equal_caps_family():
+    """Two *equal* caps in one diagram: one whose legs feed a box (not yankable), one that forms a
+    snake with a matching cup -- in both orders, for left and right snakes over three windings."""
+    out = []
+    for z in (-1, 0, 1):
+        a, ar, al = atom_str(NAME, z), atom_str(NAME, z + 1), atom_str(NAME, z - 1)
+        for left_snake in (True, False):
+            cap = ("cap", ar, a) if left_snake else ("cap", a, al)
+            legs = (ar, a) if left_snake else (a, al)
+            eater = ("box", "eat", legs, (a,))          # consumes both legs of the first cap, returns the wire a
+            blocked = [(cap, 0), (eater, 0)]             # () -> (a)
+            if left_snake:    # Id(a) @ Cap(ar, a) >> Cup(a, ar) @ Id(a)
+                snake = [(cap, 1), (("cup", a, ar), 0)]
+            else:             # Cap(a, al) @ Id(a) >> Id(a) @ Cup(al, a)
+                snake = [(cap, 0), (("cup", al, a), 1)]
+            out.append(("rigid", (), tuple(blocked + snake)))
+            # the snake first, then an equal cap that is eaten (on the right of the wire)
+            late = [(("box", "src", (), (a,)), 0)] + snake + [(cap, 1), (eater, 1), (("box", "join", (a, a), ()), 0)]
+            out.append(("rigid", (), tuple(late)))
+            # two snakes with equal caps in a row on the same wire
+            out.append(("rigid", (a,), tuple(snake + snake + [(("box", "end", (a,), ()), 0)])))
     return out
 
 
